@@ -1037,7 +1037,7 @@ fn step(w: &mut World, op: &Op, st: &mut Stats) -> Result<(), (&'static str, Str
                     // any magnitude, down to the subnormals: non-zero values of opposite sign are never
                     // close (6); values of the same sign are close exactly when their relative difference
                     // is within the tolerance, whatever their scale (7)
-                    const MAGS: [f64; 10] = [1e-17, 3e-9, 1e-170, 5e-324, 1e-300, 2.2e-16, 1e-5, 7e-155, 1e-30, 4e-162];
+                    const MAGS: [f64; 14] = [1e-17, 3e-9, 1e-170, 5e-324, 1e-300, 2.2e-16, 1e-5, 7e-155, 1e-30, 4e-162, 2.0, f64::INFINITY, 1e300, 0.75];
                     let mag = MAGS[(*k / 3) % MAGS.len()] * if *k % 2 == 0 { 1.0 } else { -1.0 };
                     let mut base = mo.clone();
                     base.d[kk] = mag;
@@ -1424,7 +1424,7 @@ fn gen_op(r: &mut Sm, tr: &Tracker, weights: &[u32; 6], p_fault: f64, special: b
         _ => match r.below(4) {
             0 => Op::Predicates { m },
             1 => Op::EqClose { a: m, b: r.below(tr.ms.len().max(1) as u64) as usize, tol: Fb(*r.pick(&[1e-6, 1e-9, 1e-12, 0.0])) },
-            _ => Op::CmpPerturbed { m, kind: r.below(10) as u8, k: r.usize(0, 63), delta: Fb(*r.pick(&[1e-3, 1e-2, 0.5, -1e-3, 1e-13])), tol: Fb(*r.pick(&[1e-6, 1e-9, 0.0])) },
+            _ => Op::CmpPerturbed { m, kind: r.below(10) as u8, k: r.usize(0, 63), delta: Fb(*r.pick(&[1e-3, 1e-2, 0.5, -1e-3, 1e-13])), tol: Fb(*r.pick(&[1e-6, 1e-9, 0.0, 0.5, 2.0, 10.0])) },
         },
     }
 }
